@@ -63,6 +63,12 @@ func (p c12) Gen(c *run.Ctx, idx int) (json.RawMessage, error) {
 	prof.Width = 2
 	prof.MaxRoots = 2
 	op := genCoreOp(r, cu.mono, prof)
+	if (idx/len(c12Sizes))%4 == 2 {
+		// two root services whose sub-trees need the same third service at the same level
+		if pr := genSharedDependantProbe(rng(c.Seed, "c12/shared", idx/len(c12Sizes)), cu.u); pr != nil {
+			op = pr
+		}
+	}
 	if op == nil {
 		return nil, nil
 	}
